@@ -206,6 +206,19 @@ def _exact_exp(x):
     return np.exp(x)
 
 
+def _isclose(a, b, rtol=1e-05, atol=1e-08, equal_nan=False):
+    """numpy.isclose on symbolic input: |a - b| <= atol + rtol * |b| element-wise, decided per element by the solver (forks)."""
+    aa, bb = np.asarray(a), np.asarray(b)
+    if aa.dtype != object and bb.dtype != object:
+        return np.isclose(a, b, rtol=rtol, atol=atol, equal_nan=equal_nan)
+    a_b, b_b = np.broadcast_arrays(aa.astype(object), bb.astype(object))
+    out = np.empty(a_b.shape, dtype=bool)
+    for idx in np.ndindex(a_b.shape):
+        x, y = a_b[idx], b_b[idx]
+        out[idx] = bool(abs(x - y) <= atol + rtol * abs(y))
+    return out if out.ndim else bool(out)
+
+
 class _LogAddExp:
     """np.logaddexp has no object loop; this is log(exp(a)+exp(b)) on log-domain scalars,
     falling through to numpy for plain float input."""
@@ -275,6 +288,10 @@ class NpProxy:
             return LOGADDEXP
         if name == "exp" and self._exact_log:
             return _exact_exp
+        if name == "isclose":
+            return _isclose
+        if name == "allclose":
+            return lambda a, b, rtol=1e-05, atol=1e-08, equal_nan=False: bool(np.all(_isclose(a, b, rtol, atol, equal_nan)))
         if self._objc and name in ("ones", "zeros", "empty", "full", "eye", "ones_like", "zeros_like"):
             return getattr(self, "_c_" + name)
         return getattr(np, name)
